@@ -88,7 +88,7 @@ CHECKS = {
    design="§3 C11"),
  "C19": dict(level="other", technique="CrossHair (z3): solver-driven exhaustive enumeration of a bounded command-line scenario space; the real isla.cli.main run in-process, expected exit code from the documented contract + reference semantics",
    text=BOUNDED + "Every command line of the family (check/parse/find x grammar file/--grammar/malformed/missing x two constraint slots incl. syntax errors, unknown nonterminals, unknown predicates, -c or .isla file "
-        "x 11 inputs incl. empty file, newline only, JSON tree x file/--input-string; 51744 thorough, ~18000 quick): exit 0 iff member and all constraints hold, 1 otherwise, 65 + message for malformed "
+        "x 15 inputs incl. empty file, newline only, JSON tree, JSON scalars / lists / invalid JSON trees x file/--input-string): exit 0 iff member and all constraints hold, 1 otherwise, 65 + message for malformed "
         "grammar/constraint, 2 for missing pieces, never an uncaught exception; `isla parse` output accepted by `isla check`.",
    note="Trusted: contract transcription + checks/refsem.py. [decoder]. Outside: solve/fuzz/repair/mutate/create commands, argparse, file-system errors.",
    design="§3 C19"),
